@@ -108,6 +108,8 @@ func main() {
 	} else {
 		fn(c)
 	}
-	c.emitStats()
+	if c.k >= 0 {
+		c.emitStats()
+	}
 	c.w.Flush()
 }
